@@ -25,10 +25,12 @@ def mig_name(n):
     return '0001_initial' if n == 1 else '%04d_m%d' % (n, n - 1)
 
 
-def e_models(a, version):
+def e_models(a, version, hollow=()):
     lines = ['from django.db import models', '', '', 'class Item%d(models.Model):' % a,
              '    name = models.CharField(max_length=20)']
     for i in range(1, version + 1):
+        if ('evo', a, i) in hollow:
+            continue
         lines.append('    f%d = models.IntegerField(null=True)' % i)
     return '\n'.join(lines) + '\n'
 
@@ -58,7 +60,7 @@ def g_migration(g, n, extra_deps):
             '%s    dependencies = %r\n    operations = [%s]\n' % (head, deps, ops))
 
 
-def deploy_e(project, a, version, decls, with_decls):
+def deploy_e(project, a, version, decls, with_decls, hollow=()):
     evos = []
     app_deps = {}
     for i in range(1, version + 1):
@@ -69,14 +71,15 @@ def deploy_e(project, a, version, decls, with_decls):
                     key = 'AFTER_MIGRATIONS' if d[0] == 'eam' else 'BEFORE_MIGRATIONS'
                     deps.setdefault(key, []).append((gapp(d[3]), mig_name(d[4])))
         evos.append({'label': 'e%d' % i,
-                     'mutations_src': ["AddField('Item%d', 'f%d', models.IntegerField, null=True)" % (a, i)],
+                     'mutations_src': [] if ('evo', a, i) in hollow else
+                     ["AddField('Item%d', 'f%d', models.IntegerField, null=True)" % (a, i)],
                      'deps': deps or None})
     if with_decls:
         for d in decls:
             if d[0] in ('aam', 'abm') and d[1] == a:
                 key = 'AFTER_MIGRATIONS' if d[0] == 'aam' else 'BEFORE_MIGRATIONS'
                 app_deps.setdefault(key, []).append((gapp(d[3]), mig_name(d[4])))
-    project.deploy(eapp(a), e_models(a, version), evos, app_deps=app_deps or None)
+    project.deploy(eapp(a), e_models(a, version, hollow), evos, app_deps=app_deps or None)
 
 
 def deploy_g(project, g, nmig, decls, available):
@@ -97,6 +100,7 @@ def run_config(rec):
     ga = {int(k): v for k, v in rec['gapplied'].items()} if isinstance(rec['gapplied'], dict) \
         else {i + 3: v for i, v in enumerate(rec['gapplied'])}
     decls = [tuple(d) for d in rec['decls']]
+    hollow = set(tuple(u) for u in rec.get('hollow') or [])
     apps = [eapp(1), eapp(2), gapp(3), gapp(4)]
     project = Project(apps, tag='c09m')
     try:
@@ -113,7 +117,7 @@ def run_config(rec):
             return {'setup_error': (r1.get('error') or {}).get('msg') or str(r1)[:300]}
         # step 2: the deployment under test
         for a in (1, 2):
-            deploy_e(project, a, 1 + ep[a], decls, with_decls=True)
+            deploy_e(project, a, 1 + ep[a], decls, with_decls=True, hollow=hollow)
         for g in (3, 4):
             deploy_g(project, g, GLEN, decls, {3: GLEN, 4: GLEN})
         project.set_installed(apps)
@@ -128,10 +132,36 @@ def run_config(rec):
                 name = e.get('name')
                 n = 1 if name == '0001_initial' else int(name[:4])
                 order.append(('mig', int(app[4:]), n))
+        # what the statements themselves did: a rebuild of an evolution app's table whose
+        # new table has columns the old one is not read for = those evolutions' SQL; a
+        # statement between applying/applied_migration = that migration's SQL
+        import re
+        sql_order = []
+        cur_mig = None
+        pending_create = None
+        for e in res['events']:
+            if e['ev'] == 'applying_migration' and (e.get('app') or '').startswith('gapp'):
+                name = e.get('name')
+                cur_mig = ('mig', int(e['app'][4:]), 1 if name == '0001_initial' else int(name[:4]))
+            elif e['ev'] == 'applied_migration':
+                cur_mig = None
+            elif e['ev'] == 'stmt':
+                sql = e['sql']
+                if cur_mig is not None and cur_mig not in sql_order:
+                    sql_order.append(cur_mig)
+                m = re.match(r'CREATE TABLE "TEMP_TABLE" \((.*)', sql)
+                if m:
+                    pending_create = set(int(x) for x in re.findall(r'"f(\d+)" ', m.group(1)))
+                m = re.match(r'INSERT INTO "TEMP_TABLE" \((.*?)\) SELECT (.*?) FROM "eapp(\d+)_item', sql)
+                if m and pending_create is not None:
+                    src = set(int(x) for x in re.findall(r'"f(\d+)"', m.group(2)))
+                    for i in sorted(pending_create - src):
+                        sql_order.append(('evo', int(m.group(3)), i))
+                    pending_create = None
         return {'outcome': res['outcome'],
                 'error_type': (res.get('error') or {}).get('type'),
                 'error_msg': ((res.get('error') or {}).get('msg') or '')[:300],
-                'order': order,
+                'order': order, 'sql_order': sql_order,
                 'migrations': [m for m in res['post']['default']['book']['migrations']
                                if m[0].startswith('gapp')],
                 'evolutions': [e[:2] for e in res['post']['default']['book']['evolutions']
@@ -152,16 +182,25 @@ def judge(rec, obs):
     if unsat:
         out.append(('unsatisfiable-not-reported', None))
         return out
-    order = obs['order']
-    if sorted(order) != sorted(units):
-        out.append(('unit-not-executed-exactly-once',
-                    {'missing': sorted(set(units) - set(order)),
-                     'twice': sorted(set(u for u in order if order.count(u) > 1)),
-                     'extra': sorted(set(order) - set(units))}))
-        return out
-    pos = {u: i for i, u in enumerate(order)}
-    broken = sorted((x, y) for (x, y) in req if pos[x] < pos[y])
-    if broken:
-        kinds = sorted(set('%s-after-%s' % (x[0], y[0]) for x, y in broken))
-        out.append(('requirement-broken', {'broken': broken[:6], 'kinds': kinds}))
+    hollow = set(tuple(u) for u in rec.get('hollow') or [])
+    # an ordering-only evolution has no SQL and therefore no signal: it only has to be recorded
+    visible = [u for u in units if u not in hollow]
+    for what, order in (('signals', [u for u in obs['order'] if tuple(u) not in hollow]),
+                        ('statements', obs.get('sql_order') or [])):
+        order = [tuple(u) for u in order]
+        if sorted(order) != sorted(visible):
+            out.append(('unit-not-executed-exactly-once',
+                        {'by': what, 'missing': sorted(set(visible) - set(order)),
+                         'twice': sorted(set(u for u in order if order.count(u) > 1)),
+                         'extra': sorted(set(order) - set(visible))}))
+            continue
+        pos = {u: i for i, u in enumerate(order)}
+        broken = sorted((x, y) for (x, y) in req if x in pos and y in pos and pos[x] < pos[y])
+        if broken:
+            kinds = sorted(set('%s-after-%s' % (x[0], y[0]) for x, y in broken))
+            out.append(('requirement-broken', {'by': what, 'broken': broken[:6], 'kinds': kinds}))
+    recorded = set(('evo', int(a[4:]), int(l[1:])) for a, l in obs.get('evolutions') or [])
+    if not set(u for u in units if u[0] == 'evo') <= recorded:
+        out.append(('pending-evolution-not-recorded',
+                    {'missing': sorted(set(u for u in units if u[0] == 'evo') - recorded)}))
     return out
